@@ -10,7 +10,7 @@ from stix2.datastore.memory import MemoryStore
 from stix2.environment import ObjectFactory
 from stix2.exceptions import ImmutableError, STIXError
 
-from engine.hlib import Native, V, pick
+from engine.hlib import Native, V, pick, pickb
 
 M1 = "marking-definition--613f2e26-407d-48c7-9eca-b8e91df99dc9"
 UU = "311b2d2d-f010-4473-83ec-1edf84858f4c"
@@ -285,6 +285,9 @@ MARK_OPS = [
     lambda o, sel: markings.add_markings(o, M2, sel), lambda o, sel: markings.add_markings(o, M1, sel), lambda o, sel: markings.remove_markings(o, M1, sel),
     lambda o, sel: markings.clear_markings(o, sel), lambda o, sel: markings.set_markings(o, M2, sel), lambda o, sel: markings.set_markings(o, "de", sel),
     lambda o, sel: markings.get_markings(o, sel, inherited=True, descendants=True), lambda o, sel: markings.is_marked(o, M1, sel),
+    lambda o, sel: markings.is_marked(o, M2, sel, inherited=True), lambda o, sel: markings.is_marked(o, [M1, M2], sel, inherited=True, descendants=True),
+    lambda o, sel: markings.is_marked(o, "marking-definition--f88d31f6-486f-44da-b317-01333bde0b82", sel, inherited=True),
+    lambda o, sel: (markings.is_marked(o, M2, sel, inherited=True), markings.is_marked(o, M2, sel, inherited=True), markings.get_markings(o, sel, inherited=True)),
     lambda o, sel: markings.add_markings(o, M2), lambda o, sel: markings.remove_markings(o, M1), lambda o, sel: markings.clear_markings(o),
     lambda o, sel: markings.set_markings(o, [M2]),
 ]
@@ -332,6 +335,62 @@ def run_marking_input_case(gi, oi, si, form):
             if json.dumps(d, sort_keys=True) != snap:
                 return False
     return True
+
+
+# ---- the extensions dictionary a caller hands in (all shapes) stays the caller's, also for custom classes that add their own extension entry
+def extensions_argument(shape: int, user: int, twice: bool) -> bool:
+    """
+    pre: 0 <= shape < 5 and 0 <= user < 4
+    post: _
+    """
+    shape, user, twice = pick(shape, 5), pick(user, 4), pickb(twice)
+    with Native():
+        ok = run_extensions_argument(shape, user, twice)
+    V.reached()
+    return ok
+
+
+def run_extensions_argument(shape, user, twice):
+    from stix2 import registry
+    saved = {k: dict(v) for k, v in registry.STIX2_OBJ_MAPS["2.1"].items()}
+    try:
+        EXT = "extension-definition--dddddddd-f010-4473-83ec-1edf84858f4c"
+        OWN = "extension-definition--eeeeeeee-f010-4473-83ec-1edf84858f4c"
+
+        @stix2.v21.CustomExtension(EXT, [("k", P.StringProperty())])
+        class PropExt:
+            extension_type = "property-extension"
+
+        @stix2.v21.CustomObject("x-asset", [("name", P.StringProperty(required=True))], extension_name=OWN)
+        class Asset:
+            pass
+
+        @stix2.v21.CustomObservable("x-probe", [("name", P.StringProperty(required=True))], ["name"], extension_name=OWN.replace("eeeeeeee", "ffffffff"))
+        class Probe:
+            pass
+        exts = [{}, {EXT: PropExt(k="v")}, {EXT: {"extension_type": "property-extension", "k": "v"}},
+                {EXT: PropExt(k="v"), "extension-definition--" + UU: {"extension_type": "property-extension", "q": 1}}, {EXT: PropExt()}][shape]
+        snap_keys, snap_ids, snap = list(exts), [id(v) for v in exts.values()], json.dumps({k: (v.serialize() if hasattr(v, "serialize") else v) for k, v in exts.items()}, sort_keys=True)
+        earlier = stix2.v21.Identity(name="n", identity_class="individual", extensions=exts) if exts else None
+        earlier_text = earlier.serialize() if earlier else None
+        for _ in range(2 if twice else 1):
+            if user == 0:
+                Asset(name="a", extensions=exts)
+            elif user == 1:
+                Probe(name="p", extensions=exts)
+            elif user == 2:
+                versioning.new_version(stix2.v21.Identity(name="n", identity_class="individual", created="2020-01-01T00:00:00.000Z",
+                                                          modified="2020-01-01T00:00:00.000Z"), extensions=exts) if exts else None
+            else:
+                stix2.v21.File(name="f", extensions=exts) if exts else stix2.v21.File(name="f")
+        now = json.dumps({k: (v.serialize() if hasattr(v, "serialize") else v) for k, v in exts.items()}, sort_keys=True)
+        if list(exts) != snap_keys or [id(v) for v in exts.values()] != snap_ids or now != snap:
+            return False
+        return earlier is None or earlier.serialize() == earlier_text
+    finally:
+        for k, v in saved.items():
+            registry.STIX2_OBJ_MAPS["2.1"][k].clear()
+            registry.STIX2_OBJ_MAPS["2.1"][k].update(v)
 
 
 # ---- thorough: every class of both versions (enriched instance): argument snapshots and copy independence
